@@ -33,7 +33,7 @@ FAMILY = {
 # further model families checked under a property: (family, replay key)
 EXTRA_FAMILIES = {"C07": [("Mirror", "Mirror")]}
 
-NEGS = {"C07": ["MC_Mirror_neg_halo"], "C02": ["MC_Recip_neg_halo"], "C03": ["MC_Conserve_neg_halo"], "C10": ["MC_Levels_neg_cursor", "MC_Levels_neg_flat"], "C11": ["MC_Shape_neg_sym"]}
+NEGS = {"C06": ["MC_Translate_neg_halo"], "C07": ["MC_Mirror_neg_halo"], "C02": ["MC_Recip_neg_halo"], "C03": ["MC_Conserve_neg_halo"], "C10": ["MC_Levels_neg_cursor", "MC_Levels_neg_flat"], "C11": ["MC_Shape_neg_sym", "MC_Shape_neg_halo"]}
 
 TOL = {"double": 1e-10, "single": 2e-4}
 
@@ -289,9 +289,53 @@ def replay_linear(chk, rs, c, variants):
 # ------------------------------------------------------------------- C06 translation
 
 
-def replay_translate(chk, rs, c, variants):
-    if c["err"] != "none" or c["halo"] != 0:
+def replay_translate_halo(chk, rs, c, variants):
+    """with a halo the cropped output is a window of the padded domain: tower translation and point reflection hold
+    between all pairs of cells that both lie inside the window"""
+    if not c["fp"]:
         return
+    rng = _rng(c)
+    dj, di = c["ym"] // c["ay"], c["xm"] // c["ax"]
+    ny, nx = c["ny"], c["nx"]
+    for prof_kind, prec, src_kind in variants:
+        if c["an"]:
+            prof_kind = "const_aniso" if prof_kind in ("mostm", "aniso") else "const"
+        kw = rs.solver_args(c, prof_kind, prec)
+        q = np.zeros((ny, nx))
+        extra = dict(profile=prof_kind, precision=prec, source="unit", q=q.tolist())
+        chk.case((_cfg_key(c), prof_kind, prec, "halo"))
+        _, pm, fm = rs.solve3(q, kw)
+        _, p0, f0 = rs.solve3(q, kw, meas_pt=(0.0, 0.0))
+        # tower moved by (dj, di): fm[j, i] = f0[j - dj, i - di] where both are inside
+        a_f, b_f = fm[:, dj:, di:], f0[:, : ny - dj, : nx - di]
+        a_p, b_p = pm[:, dj:, di:], p0[:, : ny - dj, : nx - di]
+        if not (_cmp(chk, rs, c, "translate_tower_halo", "flux", a_f, b_f, prec, "tower moved by (%d,%d) cells with halo %s (cells inside the window)" % (dj, di, kw["halo"]), **extra)
+                and _cmp(chk, rs, c, "translate_tower_halo", "conc", a_p, b_p, prec, "tower moved by (%d,%d) cells with halo %s" % (dj, di, kw["halo"]), **extra)):
+            return
+        unit = np.zeros((ny, nx))
+        unit[dj, di] = 1.0
+        try:
+            _, pd, fd = rs.solve3(unit, kw, footprint=False, meas_pt=(0.0, 0.0))
+        except Exception:
+            continue
+        jj = 2 * dj - np.arange(ny)
+        ii = 2 * di - np.arange(nx)
+        okj = (jj >= 0) & (jj < ny)
+        oki = (ii >= 0) & (ii < nx)
+        A_f = fm[:, okj][:, :, oki]
+        B_f = fd[:, jj[okj]][:, :, ii[oki]]
+        A_p = pm[:, okj][:, :, oki]
+        B_p = pd[:, jj[okj]][:, :, ii[oki]]
+        if not (_cmp(chk, rs, c, "point_reflect_halo", "flux", A_f, B_f, prec, "footprint vs point reflection of the unit-source response about the tower, halo %s" % kw["halo"], **extra)
+                and _cmp(chk, rs, c, "point_reflect_halo", "conc", A_p, B_p, prec, "Green's function vs point reflection of the unit-source response about the tower, halo %s" % kw["halo"], **extra)):
+            return
+
+
+def replay_translate(chk, rs, c, variants):
+    if c["err"] != "none":
+        return
+    if c["halo"] != 0:
+        return replay_translate_halo(chk, rs, c, variants)
     rng = _rng(c)
     dj, di = c["ym"] // c["ay"], c["xm"] // c["ax"]
     ny, nx = c["ny"], c["nx"]
@@ -492,6 +536,9 @@ def replay_levels(chk, rs, c, variants):
 def replay_shape(chk, rs, c, variants):
     if c["err"] != "none":
         return
+    if c["halo"] != 0 and (c["fp"] or (c["xm"] == 0 and c["ym"] == 0)):
+        # registration with a halo: the field must be the crop of the explicitly padded problem
+        replay_conserve(chk, rs, c, variants[:1])
     rng = _rng(c)
     g = c["geom"]
     ny, nx = c["ny"], c["nx"]
@@ -667,6 +714,15 @@ def main(prop, families=None):
         "a case is a (configuration, profile set, precision, source) tuple on which an identity was evaluated" % [f for f, _ in families]
     )
     validate_traces(chk, prop, rs, tracefile, limit=4000 if t == "quick" else 40000)
+    if t == "thorough" and prop == "C11":
+        # the repository's own tests, recorded with the hooks on (sizes far beyond the bounded model)
+        from . import repo_tests
+
+        tf, tail = repo_tests.record()
+        kept = chk.extra.get("trace_validation")
+        chk.extra["repo_tests_pytest"] = tail
+        repo_tests.solver_calls(chk, prop, tf)
+        chk.extra["trace_validation"] = kept
     chk.extra["configurations_from_tlc"] = total
     chk.extra["exhaustive"] = True
     chk.assumptions += [
